@@ -139,3 +139,72 @@ impl Src for RSrc {
         self.reached = true;
     }
 }
+
+// Native replay driver shared by the hooks. Two modes:
+//   VERIF_WITNESS=<bytes>          replay one witness
+//   VERIF_SEARCH=<n> VERIF_SEED=<s> VERIF_NBYTES=<k>   witness search: n pseudo-random byte strings (xorshift, several shapes of
+//                                  randomness), stop at the first one on which the postcondition fails or the real code panics
+#[cfg(not(kani))]
+#[allow(dead_code)]
+pub fn verif_replay_main(dispatch: fn(&str, &mut RSrc) -> bool) {
+    let name = std::env::var("VERIF_HARNESS").unwrap_or_default();
+    let search: usize = std::env::var("VERIF_SEARCH").ok().and_then(|v| v.parse().ok()).unwrap_or(0);
+    if search == 0 {
+        let mut r = RSrc::from_env();
+        if !dispatch(&name, &mut r) {
+            println!("REPLAY-UNKNOWN harness={}", name);
+            return;
+        }
+        r.report(&name);
+        return;
+    }
+    let seed: u64 = std::env::var("VERIF_SEED").ok().and_then(|v| v.parse().ok()).unwrap_or(1);
+    let nbytes: usize = std::env::var("VERIF_NBYTES").ok().and_then(|v| v.parse().ok()).unwrap_or(64);
+    std::panic::set_hook(Box::new(|_| {}));
+    let mut x: u64 = seed.wrapping_mul(0x9E3779B97F4A7C15) | 1;
+    let mut next = move || {
+        x ^= x << 13;
+        x ^= x >> 7;
+        x ^= x << 17;
+        x
+    };
+    for k in 0..search {
+        let mode = k % 4;
+        let base = (next() % 256) as i64;
+        let data: Vec<u8> = (0..nbytes)
+            .map(|_| {
+                let v = next();
+                match mode {
+                    0 => (v % 256) as u8,
+                    1 => [0u8, 255, 1, 128, 127, 16, 240, 8][(v % 8) as usize],
+                    2 => if v % 2 == 0 { 0 } else { ((v >> 8) % 256) as u8 },
+                    _ => ((base + ((v >> 8) % 81) as i64 - 40).rem_euclid(256)) as u8,
+                }
+            })
+            .collect();
+        let d2 = data.clone();
+        let nm = name.clone();
+        let res = std::panic::catch_unwind(move || {
+            let mut r = RSrc { data: d2, pos: 0, rejected: false, failed: Vec::new(), reached: false };
+            let known = dispatch(&nm, &mut r);
+            (known, r.rejected, r.failed.clone())
+        });
+        let verdict = match res {
+            Ok((false, _, _)) => {
+                println!("REPLAY-UNKNOWN harness={}", name);
+                return;
+            }
+            Ok((true, _, failed)) if !failed.is_empty() => Some(format!("postcondition failed: {}", failed.join(";"))),
+            Ok(_) => None,
+            Err(e) => {
+                let msg = e.downcast_ref::<String>().cloned().or_else(|| e.downcast_ref::<&str>().map(|s| s.to_string())).unwrap_or_default();
+                if msg.contains("VERIF_WITNESS_REJECTED") { None } else { Some(format!("panic: {}", msg)) }
+            }
+        };
+        if let Some(v) = verdict {
+            println!("REPLAY-FOUND harness={} try={} detail=[{}] witness={}", name, k, v, data.iter().map(|b| b.to_string()).collect::<Vec<_>>().join(","));
+            return;
+        }
+    }
+    println!("REPLAY-NOTFOUND harness={} tries={}", name, search);
+}
